@@ -1,9 +1,25 @@
 /-
   C04 — Events are chunked completely and in order, and chunking terminates.
+
+  Chunk sizes: "every chunk size of two or more" that FITS THE FORMAT, i.e.
+  `2 ≤ events_per_file < 2³²`: every conversion job writes the estimate
+  `stop - start = events_per_file` into the 32-bit header first, so for
+  `events_per_file ≥ 2³²` every job — job 0 is always submitted — raises
+  `OverflowError` (`chunk_size_overflow`; confirmed on the real code).
+  By construction (not theorems): the CONTENT of the chunk files does not depend
+  on `n_jobs` because the model `makeChunks` runs the jobs one after the other,
+  each on its own window of the same event stream (the real jobs are separate
+  processes that each re-read the event file: they share nothing); `n_jobs`
+  enters only the submit-loop model (`simulate`: `burst = 4 · n_jobs`, and the
+  completion order = the arbitrary oracle `delay`).  `simulate` / `closeTime` is
+  a closed form of the submit loop, not derived from a step semantics;
+  termination of the call is "finitely many jobs are submitted, each completes".
 -/
 import PyndlProofs.Chunking
 import PyndlProofs.Bytes
 import PyndlProofs.Laws
+import PyndlProofs.NdlSpec
+import PyndlProofs.Faults
 
 namespace Pyndl.C04
 open Pyndl List
@@ -16,30 +32,69 @@ theorem chunks_concat {α : Type} (es : List α) (per : Nat) (hp : 1 ≤ per) :
   chunks_flatten es per hp _ (nChunks_covers es.length per hp)
 
 /-- the file written for job `j` holds exactly `chunk j` (header count included),
-    and it reads back as that chunk -/
-theorem writeEvents_window (es : List (Event Nat Nat)) (per j : Nat)
-    (hne : chunkOf per es j ≠ []) (hw : Wf32 (chunkOf per es j)) (hl : (chunkOf per es j).length < 4294967296) :
-    ∃ bytes r, writeEvents Generated.pyMagic Generated.pyVersion .keep es (j * per) ((j + 1) * per) = (some bytes, r) ∧
-      decodeChunkPy Generated.pyMagic Generated.pyVersion bytes = .ok (chunkOf per es j) := by
-  have hwin : windowEvents .keep es (j * per) ((j + 1) * per) = .ok (chunkOf per es j) := by
-    unfold windowEvents chunkOf
-    have : (j + 1) * per - j * per = per := by
-      rw [Nat.add_mul, Nat.one_mul, Nat.add_sub_cancel_left]
-    rw [this]
-    generalize (es.drop (j * per)).take per = win
-    generalize j * per = idx
-    induction win generalizing idx with
-    | nil => rfl
-    | cons e win ih => simp [windowEvents.go, applyPolicy, ih (idx + 1)]
-  have hlen : (chunkOf per es j).length ≠ 0 := fun h => hne (List.length_eq_zero_iff.mp h)
-  have hdec := decodeChunkPy_encodeChunk Generated.pyMagic Generated.pyVersion (by decide) (by decide)
-    (chunkOf per es j) hl hw
-  unfold writeEvents
-  rw [hwin]
-  simp only [hlen, if_false]
-  split
-  · exact ⟨_, _, rfl, hdec⟩
-  · exact ⟨_, _, rfl, hdec⟩
+    and it reads back as that chunk — every duplicate policy that accepts the
+    window (`hp`; `win` = the policy-processed window), every legal chunk size -/
+theorem writeEvents_window (p : DupPolicy) (es win : List (Event Nat Nat)) (per j : Nat) (hU : per < 4294967296)
+    (hp : applyPolicyAll p (chunkOf per es j) = some win)
+    (hne : chunkOf per es j ≠ []) (hw : Wf32 win) :
+    ∃ r, writeEvents Generated.pyMagic Generated.pyVersion p es (j * per) ((j + 1) * per)
+        = (some (encodeChunk Generated.pyMagic Generated.pyVersion win), r) ∧
+      (r = .ok win.length ∨ r = .stopped win.length) ∧
+      decodeChunkPy Generated.pyMagic Generated.pyVersion
+        (encodeChunk Generated.pyMagic Generated.pyVersion win) = .ok win := by
+  have hlen := applyPolicyAll_length p _ win hp
+  have hl : win.length < 4294967296 := by rw [hlen, length_chunkOf]; omega
+  have hdec := decodeChunkPy_encodeChunk Generated.pyMagic Generated.pyVersion (by decide) (by decide) win hl hw
+  rcases writeEvents_job Generated.pyMagic Generated.pyVersion p es per j hU with ⟨hn, _⟩ | ⟨win', hs, _, hwr⟩
+  · rw [hp] at hn; cases hn
+  · rw [hp] at hs; cases hs
+    have h0 : win.length ≠ 0 := by
+      rw [hlen]; exact fun h => hne (List.length_eq_zero_iff.mp h)
+    rw [hwr, if_neg h0]
+    split
+    · exact ⟨_, rfl, Or.inr rfl, hdec⟩
+    · exact ⟨_, rfl, Or.inl rfl, hdec⟩
+
+/-- **the conversion stage as a whole, every duplicate policy**: for events the
+    policy accepts (`ids'` = the policy-processed events) and a legal chunk size,
+    the chunk files in numeric order are the encoded windows
+    `[k·per, (k+1)·per)` of `ids'` for `k < ⌈n/per⌉` — no file for a job that finds
+    no event, exact multiples of `per` included — and the reported count is the
+    number of events -/
+theorem conversion_files (p : DupPolicy) (ids ids' : List (Event Nat Nat))
+    (h : applyPolicyAll p ids = some ids') (per : Nat) (hp : 1 ≤ per) (hU : per < 4294967296) :
+    makeChunks Generated.pyMagic Generated.pyVersion p ids per
+      = .ok ((List.range (nChunks ids.length per)).map
+              (fun k => encodeChunk Generated.pyMagic Generated.pyVersion (chunkOf per ids' k)),
+             ids.length) :=
+  makeChunks_ok _ _ p ids ids' h per hp hU
+
+/-- … a rejected duplicate in ANY window makes it raise `ValueError` … -/
+theorem conversion_dup_error (p : DupPolicy) (ids : List (Event Nat Nat)) (per : Nat)
+    (hp : 1 ≤ per) (hU : per < 4294967296) (h : applyPolicyAll p ids = none) :
+    makeChunks Generated.pyMagic Generated.pyVersion p ids per = .error .value :=
+  makeChunks_error _ _ p ids per hp hU h
+
+/-- … and **`events_per_file ≥ 2³²` makes it raise `OverflowError`**, for every
+    event file (the bound `< 2³²` on the chunk size is sharp) -/
+theorem chunk_size_overflow (p : DupPolicy) (ids : List (Event Nat Nat)) (per : Nat) (hU : 4294967296 ≤ per) :
+    makeChunks Generated.pyMagic Generated.pyVersion p ids per = .error .other ∧
+    ∀ j, writeEvents Generated.pyMagic Generated.pyVersion p ids (j * per) ((j + 1) * per) = (none, .overflow) :=
+  ⟨makeChunks_overflow _ _ p ids per hU, fun j => writeEvents_overflow _ _ p ids per j hU⟩
+
+/-- **`jobResult` is what `write_events` reports** (the callback view used by the
+    submit-loop model is tied to the writer): for a job that does not fail,
+    the count is the number of events written and `closes` holds exactly when
+    the result is not the plain return value `per` (C05 `job_result_is_write_events`) -/
+theorem job_result_is_write_events (p : DupPolicy) (ids : List (Event Nat Nat)) (per j : Nat)
+    (hp1 : 1 ≤ per) (hU : per < 4294967296)
+    (hacc : failingJob Generated.pyMagic Generated.pyVersion p ids per j = false) :
+    let c := (jobResult ids.length per j).count
+    (writeEvents Generated.pyMagic Generated.pyVersion p ids (j * per) ((j + 1) * per)).2 =
+      (if c = 0 then .empty else if c < per then .stopped c else .ok c) ∧
+    ((jobResult ids.length per j).closes = true ↔
+      (writeEvents Generated.pyMagic Generated.pyVersion p ids (j * per) ((j + 1) * per)).2 ≠ .ok per) :=
+  jobResult_eq_writeEvents _ _ p ids per j hp1 hU hacc
 
 /-- chunk file names sort back into numeric order by the key the learners use,
     for ANY number of chunks (≥ 11 included) and whatever `os.listdir` returns -/
@@ -77,7 +132,9 @@ theorem submit_loop_terminates (n per burst : Nat) (hp : 1 ≤ per) (delay : Nat
 theorem submit_loop_diverges_on_multiple_old_rule (n per : Nat) (hp : 1 ≤ per) (hdiv : per ∣ n) (j : Nat) :
     (jobResultOld n per j).closes = false := old_rule_never_closes n per hp hdiv j
 
-/-- **weights do not depend on the chunk size**: learning chunk by chunk is
+/-- **weights do not depend on the chunk size** (specification level; for the
+    MODEL of `ndl.ndl` the same is C01 `ndl_call_eq_spec`, whose right-hand side
+    does not mention `events_per_temporary_file`): learning chunk by chunk is
     learning the whole sequence -/
 theorem learn_chunk_independent {R : Type} [CommRing R] {ι κ : Type} [DecidableEq ι] [DecidableEq κ]
     (α : ι → R) (β₁ β₂ lam : R) (W : κ → ι → R) (es : List (Event ι κ)) (per : Nat) (hp : 1 ≤ per) :
@@ -96,5 +153,17 @@ chunk files whose names sort numerically. -/
 example : (jobResult 4 2 0, jobResult 4 2 1, jobResult 4 2 2) = (⟨2, false⟩, ⟨2, false⟩, ⟨0, true⟩) := by decide
 example : (simulate 4 2 8 (fun j => if j = 2 then 7 else 0) 9).2.2 = 4 := by decide +kernel
 example : chunkKey (chunkName 10) = 10 ∧ chunkName 10 = "events_0_10.dat".toList := by decide +kernel
+
+/-- non-vacuity of `conversion_files` / `writeEvents_window`: 5 events, 2 per
+    file, policy `True` (a repeated cue is removed): three files, the last one
+    partly filled -/
+example :
+    makeChunks Generated.pyMagic Generated.pyVersion .dedup
+      [⟨[0, 0], [0]⟩, ⟨[1], []⟩, ⟨[2], [1]⟩, ⟨[0], [1]⟩, ⟨[3], [0]⟩] 2
+      = .ok ([encodeChunk Generated.pyMagic Generated.pyVersion [⟨[0], [0]⟩, ⟨[1], []⟩],
+              encodeChunk Generated.pyMagic Generated.pyVersion [⟨[2], [1]⟩, ⟨[0], [1]⟩],
+              encodeChunk Generated.pyMagic Generated.pyVersion [⟨[3], [0]⟩]], 5) :=
+  conversion_files .dedup _ [⟨[0], [0]⟩, ⟨[1], []⟩, ⟨[2], [1]⟩, ⟨[0], [1]⟩, ⟨[3], [0]⟩] (by decide +kernel) 2
+    (by decide) (by decide)
 
 end Pyndl.C04
